@@ -51,7 +51,7 @@ def record(sc):
         cache = {}
         for idx, uc in sc["calls"]:
             try:
-                with time_limit(2):
+                with time_limit(10):
                     v = get_sub_seed(seed, idx, high=high, cache=cache if uc else None)
                 calls.append(dict(idx=idx, uc=bool(uc), res="val", val=limb(v),
                                   nseen=len(cache.get("seen", ())) if uc else 0))
@@ -75,7 +75,7 @@ def record(sc):
             net = nx.DiGraph()
             net.add_node("_random_state")
             try:
-                with time_limit(5):
+                with time_limit(20):
                     RandomStateLoader.load(ctx, net, idx)
                 rs = net.nodes["_random_state"]["output"]
                 st = rs.get_state()
